@@ -1800,6 +1800,80 @@ def _every_iteration(self, rule, body, source_pred, sink, descr, what):
 Run.every_iteration = _every_iteration
 
 
+def _loop_exhaustive(self, rule, body, sink, descr, what):
+    """Every loop of `body` whose iteration reaches a `sink` block (the per-element work) runs until its iterator is exhausted: it
+    has no `break` — an early exit would leave the elements behind it unprocessed.  Early `return`s that share only the final
+    drop/return tail are not early exits in this sense (they abandon the whole call)."""
+    prep(body)
+    g = cfg_of(body)
+    sinks = set(sink.blocks(body))
+    hit, ok = 0, True
+    for nid, (starts, common, rb) in loop_early_exits(body).items():
+        if not (sinks & rb):
+            continue
+        hit += 1
+        if common:
+            ok = False
+            self.viol(rule, "loop-stops-early", "%s: the loop over %s can be left before all elements were handled (break): elements behind that point are skipped" % (body.path, what),
+                      body, g.term(nid)["l"])
+    if not sinks or not hit:
+        ok = False
+        self.viol(rule, "loop-missing", "%s: no loop performing `%s` per element of %s found" % (body.path, sink.descr(), what), body, body.lines[0])
+    self.inst(rule, "K5 must-follow (per element)", descr, hit, ok)
+    return ok
+
+
+Run.loop_exhaustive = _loop_exhaustive
+
+
+def _only_propagated_errors(self, rule, fn, descr, allow=()):
+    """Every `Err` the function (and its closures) builds lies behind the failing side of some fallible call: the function passes
+    on / converts its callees' errors and has no refusal of its own.  With the `Err` edges of all Result-returning calls cut, no
+    `Result::Err` aggregate is reachable.  `allow`: (label, guard) pairs naming refusals the property itself demands."""
+    F = self.F
+    root = self.body(rule, fn)
+    if root is None:
+        return False
+    ok, nsites, nbodies = True, 0, 0
+    for b in F.item(root.path):
+        if b.nblocks == 49 and b.kind == "closure":
+            continue        # tracing callsite closure
+        prep(b)
+        errs = AggSink("core::result::Result", "Err").blocks(b)
+        if not errs:
+            continue
+        nbodies += 1
+        g = cfg_of(b)
+        tr = Tracker(b)
+        seeded = 0
+        for blk in b.blocks:
+            t = blk["term"]
+            if blk["cleanup"] or t["k"] != "call" or len(t.get("d") or []) != 1:
+                continue
+            ty = str(b.locals.get(str(t["d"][0]), ""))
+            fut = _is_future_local(b, t["d"][0])
+            if fut or "result::Result<" in ty or ty.startswith("Result<") or "ControlFlow<" in ty:
+                tr.seed_call_result(t["d"][0], ("Err",), fut)
+                seeded += 1
+        tr.run()
+        cut = set(tr.accept)
+        for lab, gd in allow:
+            n_, acc_, rej_ = gd.edges(b)
+            cut |= set(rej_)
+        free = g.reach((0,), cut=cut)
+        for e in errs:
+            nsites += 1
+            if e in free:
+                ok = False
+                self.viol(rule, "own-refusal:%s" % self.root_path(b).split("::")[-1], "%s can answer Err on a path where none of its fallible calls failed: a refusal of its own, "
+                          "for an input the property requires it to handle" % b.path, b, g.term(e).get("l") or b.lines[0])
+    self.inst(rule, "K4 gate (must-reach dual)", descr, nsites, ok, {"bodies_with_err": nbodies})
+    return ok
+
+
+Run.only_propagated_errors = _only_propagated_errors
+
+
 def _whole_file_write(self, rule, fn, descr):
     """The function replaces its file whole on every write: fs::write / File::create, or OpenOptions with truncate(true) /
     create_new(true).  An OpenOptions chain that writes without truncating leaves the tail of a longer previous version."""
